@@ -656,9 +656,10 @@ func (w *World) Serve(task, idx int, rq *Req) *ReqRec {
 	t := shCur()
 	w.setCur(t, rs)
 	rec.StartSeq = shNextSeq()
-	hits0, stores0 := probeGet(prSiteBase+siteCacheHit), probeGet(prSiteBase+siteCacheStore)
+	hits0, stores0 := taskCacheGet()
 	defer func() {
-		rec.Hits, rec.Stores = probeGet(prSiteBase+siteCacheHit)-hits0, probeGet(prSiteBase+siteCacheStore)-stores0
+		h1, s1 := taskCacheGet()
+		rec.Hits, rec.Stores = h1-hits0, s1-stores0
 		if cr := w.R.VerifCache(); cr != nil {
 			ks, _ := cr.VerifKeys()
 			rec.CacheKeys = strings.Join(ks, ",")
